@@ -42,6 +42,13 @@ def _lint_default() -> str:
     return "unknown:lint"
 
 
+def _atomic_write_program() -> list[dict]:
+    """syscall-level step list of the real `atomic_write` (one traced run in a scratch directory): which
+    call, which path (temp / target), which region of the try / with / finally statement (C16)"""
+    import awtrace
+    return awtrace.extract_program(awtrace.load_module(REPO))
+
+
 def extract() -> dict:
     sys.path.insert(0, os.path.join(REPO, "src"))
     from rbacx.core import compiler, policy, policyset
@@ -51,22 +58,52 @@ def extract() -> dict:
         "compiler": _probe_algo(lambda p, e: compiler.compile(p)(e)),
         "lint": _lint_default(),
     }
-    return {"consts": consts}
+    return {"consts": consts, "atomic_write_program": _atomic_write_program()}
 
 
 def lean_str(s: str) -> str:
     return json.dumps(s, ensure_ascii=False)
 
 
+def lean_bool(b) -> str:
+    return "true" if b else "false"
+
+
+def lean_aw_step(s: dict) -> str:
+    """one traced step as a `Rbacx.AWStep` literal (unknown calls / regions become shape violations)"""
+    loc = lambda x: "." + (x if x in ("temp", "target") else "other")  # noqa: E731
+    op = s.get("op")
+    if op == "mkstemp":
+        o = f".mkstemp {lean_bool(s.get('same_dir'))}"
+    elif op in ("fdopen", "openTrunc", "close", "other"):
+        o = f".{op} {loc(s.get('loc'))}"
+    elif op == "write":
+        o = f".write {loc(s.get('loc'))} {int(s.get('chunk', 0))}"
+    elif op == "replace":
+        o = f".replace {loc(s.get('src'))} {loc(s.get('dst'))}"
+    elif op == "unlink":
+        o = f".unlink {loc(s.get('loc'))} {lean_bool(s.get('swallow'))}"
+    else:
+        o = ".other .other"
+    region = s.get("region") if s.get("region") in ("outside", "body", "withBody", "withExit", "fin") else "outside"
+    return f"⟨{o}, .{region}⟩"
+
+
 def render(facts: dict) -> str:
     c = facts["consts"]
+    aw = ",\n   ".join(lean_aw_step(s) for s in facts.get("atomic_write_program", []))
     return f"""import Rbacx.Model.Compiler
+import Rbacx.Model.FileSource
 /-! GENERATED on every run by harness/extract.py from /repo's working tree. Do not edit. -/
 namespace Rbacx.Generated
 
 def consts : Rbacx.Consts :=
   {{ interpDefault := {lean_str(c['interp'])}, setDefault := {lean_str(c['set'])},
     compilerDefault := {lean_str(c['compiler'])}, lintDefault := {lean_str(c['lint'])} }}
+
+/-- the syscall-level steps of `rbacx.store.file_store.atomic_write`, traced from one real run (C16) -/
+def atomicWriteProgram : List Rbacx.AWStep :=
+  [{aw}]
 
 end Rbacx.Generated
 """
